@@ -253,6 +253,7 @@ pub fn dispatch(scratch: &Path, meta: usize, campaign: &str, id: &str, seed: u64
         "projection" => crate::misc::case_projection(scratch, meta, id, seed, len, None),
         "names" => crate::misc::case_names(scratch, meta, id, seed, len, None),
         "edge" => crate::misc::case_edge(scratch, meta, id, seed, len, None),
+        "oversize" => crate::misc::case_oversize(scratch, meta, id, seed, len, None),
         "damage" => crate::damage::case_damage(scratch, meta, id, seed, len, false, None),
         "damage-aimed" => crate::damage::case_damage(scratch, meta, id, seed, len, true, None),
         "crash" => crate::crash::case_crash(scratch, meta, id, seed, len, &crash_cfg(false), None),
@@ -284,6 +285,7 @@ pub fn dispatch_replay(scratch: &Path, meta: usize, campaign: &str, case: &Case)
         "projection" => crate::misc::case_projection(scratch, meta, &id, 1, 0, Some(case)),
         "names" => crate::misc::case_names(scratch, meta, &id, 1, 0, Some(case)),
         "edge" => crate::misc::case_edge(scratch, meta, &id, 1, 0, Some(case)),
+        "oversize" => crate::misc::case_oversize(scratch, meta, &id, 1, 0, Some(case)),
         "damage" => crate::damage::case_damage(scratch, meta, &id, 1, 0, false, Some(case)),
         "damage-aimed" => crate::damage::case_damage(scratch, meta, &id, 1, 0, true, Some(case)),
         "crash" => crate::crash::case_crash(scratch, meta, &id, 1, 0, &crash_cfg(false), Some(case)),
